@@ -35,7 +35,7 @@ FUNCTIONS = [
 ASSUMPTIONS = c02.ASSUMPTIONS[:5] + [
     "acceptance of the final iteration is asserted against the uniforms that iteration drew (the last len(evaluated) uniforms of the sampler's stream)",
     "one non-finite likelihood value may be injected (in-memory entry points) as a failure; the call must then raise",
-    "bounds: N <= 4 (quick) / 5 (thorough), n_requested <= 2 / 3; larger libraries are outside the claim",
+    "bounds: N <= 4 (one three-iteration shape with N = 6) (quick) / 5 (thorough), n_requested <= 2 / 3; larger libraries are outside the claim",
 ]
 
 
@@ -66,6 +66,10 @@ def shapes(tier, focus="C14"):
     out.append({"mode": "inmem", "N": 2, "req": 2, "init": None, "growth": 2, "n_lin": 1, "nonfinite": None})
     out.append({"mode": "file", "N": 3, "req": 2, "init": None, "growth": 2, "n_lin": 1, "maxprior": None, "randomize": False, "src": "filename", "n_batches": None})
     out.append({"mode": "file", "N": 3, "req": 1, "init": None, "growth": 2, "n_lin": 1, "maxprior": None, "randomize": False, "src": "filename", "n_batches": None})
+    # three iterations (1 row, 4 rows, the rest) on the file path, in file order and shuffled
+    out.append({"mode": "file", "N": 6, "req": 3, "init": 1, "growth": 128, "n_lin": 1, "maxprior": None, "randomize": False, "src": "filename", "n_batches": None})
+    if tier == "thorough":
+        out.append({"mode": "file", "N": 7, "req": 3, "init": 1, "growth": 128, "n_lin": 1, "maxprior": None, "randomize": False, "src": "object", "n_batches": 2})
     # a first batch of three or more shuffled rows (index arrays whose sorting permutation is not its own inverse)
     for N, init, req in ((3, 3, 1), (4, 3, 2), (4, 4, 1)):
         if tier == "quick" and N == 4 and init == 4:
